@@ -98,6 +98,14 @@ class MonitoredStream(object):
         self.close()
         return False
 
+    def __getattr__(self, name):
+        # anything else the wrapped stream offers (peek, readinto, fileno,
+        # name ...) is passed through, so that a reader that probes for
+        # optional stream features sees what the real stream has
+        if name.startswith('_'):
+            raise AttributeError(name)
+        return getattr(self._s, name)
+
     # -- marks ------------------------------------------------------------
     def mark(self):
         return len(self.events)
@@ -128,9 +136,9 @@ def consumption(stream):
     go *back* inside the most recent read (un-reading look-ahead); no byte is
     skipped by a forward seek."""
     fails = []
-    pos = 0
-    high = 0          # highest byte ever returned by a read
-    last_read = (0, 0)
+    pos = getattr(stream, 'start', 0)
+    high = pos        # highest byte ever returned by a read
+    last_read = (pos, pos)
     for e in stream.events:
         if e[0] == 'read':
             p, n, got = e[1], e[2], e[3]
@@ -143,6 +151,8 @@ def consumption(stream):
             newpos = e[4]
             if newpos > pos:
                 fails.append('forward_seek_skips_bytes')
+            elif newpos < getattr(stream, 'start', 0):
+                fails.append('seek_before_document_start')
             elif newpos < last_read[0]:
                 fails.append('seek_back_before_last_read')
             pos = newpos
